@@ -11,7 +11,7 @@ from concurrent.futures import ThreadPoolExecutor
 from . import gen
 
 VERIF = gen.VERIF
-WORK = os.path.join(VERIF, 'work')
+WORK = os.path.join(gen.OUT, 'work')
 
 FAILED_PATTERNS = [
     (r'unable to prove post-condition of closure', 'closure_postcondition'),
